@@ -282,6 +282,44 @@ def cache_moves(d):
     d.reach()
 
 
+@meta(bounds="one client stack (max APDU 1024, segmentedBoth, three retries) that learns peers from their I-Am, and a bare station "
+             "that never answers requests: it is known as a 1024-octet device (or not known at all, symbolic) when a 60-octet "
+             "request goes out in one APDU; one second later it announces itself as a 50-octet device that takes segments or "
+             "does not (symbolic); every frame the client sends it from then on - the retries at 3, 6 and 9 s - respects the "
+             "new announcement: at most 50 octets of APDU, segments only if it takes them; or the application is told with an abort",
+      outside="announcements between later retries",
+      stubs=["virtual clock (task._time)", "asyncore.loop -> clock advance", "task._Trigger -> wake flag", "fresh singletons per path"])
+def announce_during_retry(d):
+    w = World()
+    lan = nl.FaultLAN([], world=w)
+    cdev = nl.make_device("c", 10, maxApduLengthAccepted=1024, segmentationSupported="segmentedBoth", numberOfApduRetries=3)
+    client = LearningStack(cdev, lan)
+    B = nl.RawPeer(31, lan)
+    if d.bool('known_before'):
+        B.send(client.address, nl.frame(iam_octets(1, 1024, 0), False))
+        w.run(until=w.clock)
+    client.request(nl.private_transfer(B.address, bytes(60)))
+    w.run(until=w.clock + 1.0)
+    first = [wire.parse_frame(data) for (src, data) in B.received]
+    if len([1 for (n, a) in first if a is not None and a["type"] == 0]) != 1:
+        raise Violation("first-attempt", frames=len(first))
+    takes_segments = d.bool('now_takes_segments')
+    B.send(client.address, nl.frame(iam_octets(1, 50, 0 if takes_segments else 3), False))
+    n0 = len(B.received)
+    w.run(until=w.clock + 30.0)
+    for (src, data) in B.received[n0:]:
+        n, a = wire.parse_frame(data)
+        if a is None or a["type"] != 0:
+            continue
+        if len(n["payload"]) > 50:
+            raise Violation("apdu-exceeds-announced-max", length=len(n["payload"]), limit=50, takes_segments=bool(takes_segments))
+        if a["seg"] and not takes_segments:
+            raise Violation("segmented-request-to-peer-without-segmented-receive", takes_segments=False)
+    if len(client.confirmations) != 1 or nl.outcome_kind(client.confirmations[0]) != "abort":
+        raise Violation("outcome", got=[nl.outcome_kind(c) for c in client.confirmations])
+    d.reach()
+
+
 def body_len(n):
     """octets of a ConfirmedPrivateTransfer request/ack body carrying an n-octet string: [0] vendor 999 (3),
     [1] service 1 (2), opening tag (1), octet-string tag with its length escape, the octets, closing tag (1)"""
@@ -370,6 +408,10 @@ def instances(tier):
             out.append(Inst(limits_scn, dict(c, wmax=127), budget=80, path_timeout=60, label=label(c)))
         out.append(Inst(window_follow, dict(nseg=5, wmax=3), budget=150, path_timeout=60))
         out.append(Inst(cache_moves, {}, budget=150, path_timeout=60))
+        out.append(Inst(announce_during_retry, {}, budget=120, path_timeout=60))
+        # the IOCB interface: an application whose request cannot be sent is told so (C04's harness)
+        from .C04 import iocb_sync_abort
+        out.append(Inst(iocb_sync_abort, {}, budget=120))
         # windows under loss (C05's scenario and wire oracle: never more segments outstanding than the window in force), the two
         # sides proposing different windows
         from .C05 import seg_payload, label as _l5
@@ -412,6 +454,9 @@ def instances(tier):
                 out.append(Inst(limits_scn, dict(c, wmax=127), budget=400, path_timeout=90, label=label(c)))
         out.append(Inst(window_follow, dict(nseg=6, wmax=4), budget=900, path_timeout=90))
         out.append(Inst(cache_moves, {}, budget=600, path_timeout=60))
+        out.append(Inst(announce_during_retry, {}, budget=600, path_timeout=60))
+        from .C04 import iocb_sync_abort
+        out.append(Inst(iocb_sync_abort, {}, budget=600))
         from .C05 import seg_payload, label as _l5
         for (wc, ws) in ((1, 4), (4, 1), (2, 8), (8, 2)):
             for (req, resp) in (((2, 2), (150, 150)), ((150, 150), (2, 2))):
